@@ -92,11 +92,15 @@ pub fn c09_oracle(t: &TextTree, text: &str) -> Outcome {
     // a tokenizer that was created in mode C, restricted to the fields the path-rewrite plugins read,
     // and switched to A / B afterwards (what the Python binding does for a per-call mode) must
     // split exactly like one created in that mode
-    for (mode, direct) in [(Mode::A, &ta), (Mode::B, &tb)] {
+    // (without path-rewrite plugins nothing but the surface - or nothing at all - needs to be loaded)
+    use sudachi::dic::subset::InfoSubset;
+    let has_rewrite = w.spec.plugins.get("pathRewritePlugin").map(|p| p.as_array().map(|a| !a.is_empty()).unwrap_or(false)).unwrap_or(false);
+    let narrow: Vec<InfoSubset> = if has_rewrite { vec![InfoSubset::SURFACE | InfoSubset::POS_ID | InfoSubset::NORMALIZED_FORM] } else { vec![InfoSubset::SURFACE, InfoSubset::empty()] };
+    for (mode, direct, subset) in narrow.iter().flat_map(|s| [(Mode::A, &ta, *s), (Mode::B, &tb, *s)]) {
         o.evaluations += 1;
         let r = catch(|| {
             let mut tok = sudachi::analysis::stateful_tokenizer::StatefulTokenizer::new(dict.clone(), Mode::C);
-            tok.set_subset(sudachi::dic::subset::InfoSubset::SURFACE | sudachi::dic::subset::InfoSubset::POS_ID | sudachi::dic::subset::InfoSubset::NORMALIZED_FORM);
+            tok.set_subset(subset);
             tok.set_mode(mode);
             tok.reset().push_str(text);
             tok.do_tokenize().map_err(|e| classify_err(&e))?;
@@ -111,7 +115,7 @@ pub fn c09_oracle(t: &TextTree, text: &str) -> Outcome {
                 let a: Vec<(usize, usize, u32)> = t2.iter().map(|t| (t.begin, t.end, t.word_id)).collect();
                 let b: Vec<(usize, usize, u32)> = direct.iter().map(|t| (t.begin, t.end, t.word_id)).collect();
                 if a != b {
-                    o.fail(Failure::new("mode-set-later-splits-differently", format!("[{}] {:?}: a tokenizer switched to mode {} after set_subset(surface, pos, normalized form) gives {:x?}, one created in that mode {:x?}", w.name(), text, mode_name(mode), a, b)));
+                    o.fail(Failure::new("mode-set-later-splits-differently", format!("[{}] {:?}: a tokenizer switched to mode {} after set_subset({:?}) gives {:x?}, one created in that mode {:x?}", w.name(), text, mode_name(mode), subset, a, b)));
                 }
             }
         }
